@@ -9,6 +9,7 @@ import (
 
 	"verif/harness/c14"
 	"verif/harness/c17"
+	"verif/harness/cr"
 	"verif/harness/cw"
 	"verif/harness/c20"
 )
@@ -24,6 +25,7 @@ func main() {
 	in := fs.String("in", "", "scenario input (from TLC)")
 	mode := fs.String("mode", "", "driver mode")
 	stride := fs.Int("stride", 1, "sweep stride")
+	out2 := fs.String("out2", "", "second trace output")
 	fs.Parse(os.Args[2:])
 	_ = in
 	_ = mode
@@ -34,8 +36,10 @@ func main() {
 		} else {
 			c14.Run(*out)
 		}
+	case "rd":
+		cr.Run(*out, *mode)
 	case "wr":
-		cw.Run(*out, *mode)
+		cw.RunRB(*out, *out2, *mode)
 	case "c17":
 		c17.Run(*out)
 	case "c20":
